@@ -239,7 +239,16 @@ def random_text_cases(ctx, n, scope_mod):
     return cases
 
 
-def goto_failures(ctx, fn, text):
+GOTO_CORPUS = [
+    'n = 3\nwhile n: print(n); n = n - 1\nprint(n)\n',
+    'for i in [1, 2]: print(acc) if i > 1 else 0; acc = i\n',
+    'def f(xs, c):\n    total = 0\n    for x in xs:\n        if c: print(total)\n        else:\n                        total = total + x\n    return total\n',
+    'import os\nif os: val = 1\nelse: val = 2; val = val + 1\nprint(val); val = 0; print(val)\n',
+    'try: res = 1\nexcept ValueError as err: res = err; print(res)\nprint(res)\n',
+]
+
+
+def goto_failures(ctx, fn, text, every=False):
     """go-to-definition from every name read (cursor at its end and inside it): every position
     reported for this file must show the identifier in the ORIGINAL text (or the except keyword)."""
     from supp.project import Project
@@ -256,7 +265,7 @@ def goto_failures(ctx, fn, text):
     ctx.rng.shuffle(reads)
     bad = []
     n = 0
-    for node in reads[:6]:
+    for node in (reads if every else reads[:6]):
         line = lines[node.lineno - 1]
         if not line.isascii():
             continue
@@ -372,6 +381,13 @@ def run(ctx):
             ng += k
             for b in bad:
                 direct_bad.append((fn, text if fn.startswith(gdir) else None, (b[0], b[2], 'go-to-definition from %r reports a position whose text is %r' % (b[1], b[3]))))
+    # fixed texts, every read: several reaching bindings, one of them on the cursor's line right of the cursor
+    # (one-line loops and suites), above it, and below it at a larger column
+    for gi, gtext in enumerate(GOTO_CORPUS):
+        k, bad = goto_failures(ctx, os.path.join(gdir, 'goto_corpus%d.py' % gi), gtext, every=True)
+        ng += k
+        for b in bad:
+            direct_bad.append(('goto_corpus%d.py' % gi, gtext, (b[0], b[2], 'go-to-definition from %r reports a position whose text is %r' % (b[1], b[3]))))
     cov['goto_positions_checked'] = ng
     nx = 0
     # the target file as it is on disk: plain, starting with blank lines (csv.py, opcode.py do), with a form feed
